@@ -524,6 +524,7 @@ func (g *Graph) Exec(from Loc, targets []Loc, leaf Leaf, o ExecOpts) ExecResult 
 			follow(b.Succs[1])
 		}
 	}
+	visits[from.B] = 1
 	walk(from.B, from.I, store{}, make([]bool, len(targets)), map[*cfg.Block]bool{from.B: true})
 	for i := range targets {
 		res.Must[i] = res.May[i] && hitAll[i] && res.Paths > 0
@@ -548,7 +549,7 @@ func (g *Graph) storeEffect(n ast.Node, st map[types.Object]ast.Expr) {
 		if !ok || v.IsField() || (v.Pkg() != nil && v.Parent() == v.Pkg().Scope()) {
 			return
 		}
-		if g.Fn.ClosureMutated(obj) {
+		if g.Fn.AssignedOutside(obj) {
 			st[obj] = nil
 			return
 		}
